@@ -2469,6 +2469,7 @@ void mmd_export_footnote_list_html(DString * out, const char * source, scratch_p
 	if (scratch->used_footnotes->size > 0) {
 		footnote * note;
 		token * content;
+		short temp_short;
 
 		pad(out, 2, scratch);
 		print_const("<div class=\"footnotes\">\n<hr />\n<ol>");
@@ -2478,7 +2479,15 @@ void mmd_export_footnote_list_html(DString * out, const char * source, scratch_p
 			// Export footnote
 			pad(out, 2, scratch);
 
-			printf("<li id=\"fn:%d\">\n", i + 1);
+			// The id must be derived the same way as the references to it
+			temp_short = i + 1;
+
+			if (scratch->extensions & EXT_RANDOM_FOOT) {
+				srand(scratch->random_seed_base + temp_short);
+				temp_short = rand() % 32000 + 1;
+			}
+
+			printf("<li id=\"fn:%d\">\n", temp_short);
 			scratch->padded = 6;
 
 			note = stack_peek_index(scratch->used_footnotes, i);
